@@ -31,6 +31,7 @@ GenNext ==
   \/ phase = "w" /\ Len(items) >= 2 /\ NRW < MaxRW /\ \E a \in GenRW : Step(a)
   \/ phase = "w" /\ Len(items) >= MinItems /\ \E a \in GenOpens : Step(a)
   \/ phase = "r" /\ \E a \in RdActs : Step(a)
+  \/ phase = "r" /\ ~AtEnd /\ \E a \in RdActs : LStep(a, LReply(Min2(Pfx, HeadIt.n)))
   \/ phase = "r" /\ sync /\ hd = 3 /\ \E a \in {x \in GenRW : x.pos <= 4} : Step(a)
   \/ phase = "r" /\ hd \in {2, 4} /\ Len(items) < MaxItems + 2 /\ \E a \in GenLateW : Step(a)
   \/ phase = "r" /\ ~AtEnd /\ \E a \in RdActs : \E r \in UReplies(a) : UStep(a, r)
